@@ -318,6 +318,21 @@ def apply(mid: str, m: dict, i: int):
     if mid == "choice_extra_column_translated":
         C[0]["geometry::fr"] = "1 2"
         return ["geometry"]
+    if mid == "choices_header_not_a_name":
+        C[0]["9lives"] = "x"
+        return ["9lives"]
+    if mid == "bind_suffix_not_a_name":
+        r["bind::a<b"] = "x"
+        return ["a<b"]
+    if mid == "bind_suffix_undeclared_prefix":
+        r["bind::nope:attr"] = "x"
+        return ["nope"]
+    if mid == "settings_attribute_not_a_name":
+        m["settings"]["attribute::two words"] = "x"
+        return ["two words"]
+    if mid == "label_with_control_character":
+        r["label"] = "bad \x01 char"
+        return []
     if mid == "loop_without_list":
         S.extend([dict(type="begin loop", name="lp", label="LP"), dict(type="text", name="lq", label="x"), dict(type="end loop")])
         return []
